@@ -21,7 +21,19 @@ def structured_blocks(rng, npr, x, dtype):
     special-case): symmetric, complex symmetric (NOT hermitian), hermitian, diagonal, diagonal
     of phases, triangular, orthogonal / unitary, constant. -> name of the structure or None"""
     cplx = np.dtype(dtype).kind == "c"
-    st = rng.choice(["symmetric", "symmetric", "hermitian", "diagonal", "phases", "triangular", "unitary", "constant", "antisymmetric"])
+    st = rng.choice(["symmetric", "symmetric", "hermitian", "diagonal", "phases", "triangular", "unitary", "constant", "antisymmetric", "integer-diagonal", "integer-diagonal", "same-block-in-every-sector"])
+    if st == "same-block-in-every-sector":
+        # bit-identical singular values in different charge sectors
+        shapes = {}
+        for s_, b in x.blocks.items():
+            shapes.setdefault(np.asarray(b).shape, []).append(s_)
+        done = False
+        for shp, secs in shapes.items():
+            if len(secs) >= 2:
+                for s_ in secs[1:]:
+                    x.blocks[s_] = np.array(x.blocks[secs[0]])
+                done = True
+        return st if done else None
     done = False
     for s_, b in list(x.blocks.items()):
         b = np.asarray(b)
@@ -34,6 +46,9 @@ def structured_blocks(rng, npr, x, dtype):
             v = b - b.T
         elif st == "hermitian":
             v = b + b.conj().T
+        elif st == "integer-diagonal":
+            # exactly repeated singular values (4, 4, 3, 2, 1, 1, ...)
+            v = np.diag(npr.choice([1.0, 1.0, 2.0, 3.0, 4.0, 4.0], size=n)).astype(b.dtype)
         elif st == "diagonal":
             v = np.diag(np.diag(b))
         elif st == "phases":
@@ -103,6 +118,21 @@ def rand_matrix(ctx, rng, sym=None, fermionic=None, kind=None, dtype=None, squar
             if st:
                 feats.add("structured-blocks")
                 feats.add("structure:" + st)
+        if kind == "direct" and not square and not uniform and rng.random() < 0.05:
+            # very elongated blocks (aspect >= 16) with a prescribed, badly conditioned spectrum
+            short = rng.randint(2, 3)
+            long_ = rng.randint(16 * short, 20 * short)
+            cch = rng.choice(gen.POOL[sym])
+            tall = rng.random() < 0.5
+            r2 = sr.BlockIndex({cch: long_ if tall else short}, dual=r.dual)
+            c2 = sr.BlockIndex({cch: short if tall else long_}, dual=not r.dual)
+            x = gen.make_array(sr, rng, sym, [r2, c2], charge=R.identity(sym), fermionic=fermionic, values=vals, sparsity=0.0, nphase=0, exotic=False)
+            for s_, b in list(x.blocks.items()):
+                b = np.asarray(b)
+                u_, _, vh_ = np.linalg.svd(b, full_matrices=False)
+                spec = np.array([2.0, 5e-9, 3e-12][:short]) * rng.choice([1.0, 1e3, 1e-3])
+                x.blocks[s_] = ((u_ * spec) @ vh_).astype(b.dtype)
+            feats.add("elongated-ill-conditioned-block")
         if kind == "deficient":
             for s, b in list(x.blocks.items()):
                 if min(b.shape) >= 2 and rng.random() < 0.7:
